@@ -26,6 +26,11 @@ type GraphCase struct {
 	VarLike []int    `json:"var_like,omitempty"` // tasks for which a global variable of the same name exists (value: an existing file)
 	Request []string `json:"request"`
 	Reps    int      `json:"reps"`
+	// Busy: tasks (with two commands) whose second command cannot be started at the first attempt:
+	// the runner returns the operating system's error BusyErr (ETXTBSY, EAGAIN, EINTR, EMFILE). spok
+	// may give up on the run or go on; no command runs a second time
+	Busy    []int  `json:"busy,omitempty"`
+	BusyErr string `json:"busy_err,omitempty"`
 }
 
 // Task names: underscores are identifier characters, so names are chosen such that different
@@ -192,7 +197,28 @@ func execGraph(s *ev.Shard, root string, c GraphCase) *rp.Fail {
 		if c.Reuse {
 			st.keep = &kept
 		}
+		var busy []string
+		for _, i := range c.Busy {
+			if has(c.TwoCmds, i) && !has(c.Empty, i) && !has(c.Fail, i) {
+				busy = append(busy, graphNames[i])
+			}
+		}
+		st.Busy, st.BusyErr = busy, c.BusyErr
 		rr := doRun(root, src, st)
+		if len(busy) > 0 {
+			for _, n := range busy {
+				// the command that could not be started may be tried again; the one before it ran once
+				if rr.rec.first[n] > 1 {
+					return &rp.Fail{Sig: "command-ran-twice", Size: size, Msg: fmt.Sprintf("request %v, repetition %d: the second command of task %s could not be started at first (%s); its first command ran %d times: %v", c.Request, rep, n, c.BusyErr, rr.rec.first[n], rr.rec.calls)}
+				}
+			}
+			if s != nil && rr.rec.busied {
+				s.Class("runner_error_on_second_command")
+			}
+			if rr.rec.busied {
+				continue // giving up on the run or carrying on are both in order
+			}
+		}
 		if rr.err != nil && strings.HasPrefix(rr.err.Error(), "harness: generated spokfile does not parse") {
 			return &rp.Fail{Sig: "harness", Msg: rr.err.Error()}
 		}
